@@ -382,6 +382,15 @@ func genGE(cfg *config, r *rng, i int, s *sink) string {
 			}
 			lon, lon2, po = wrap(lon), wrap(lon2), wrap(po)
 		}
+		if !antimeridian && r.chance(1, 15) {
+			// a position that IS an end of the line, bit for bit (a reading taken at the marker)
+			if r.bool() {
+				pl, po = lat, lon
+			} else {
+				pl, po = lat2, lon2
+			}
+			s.count("ge.pos.at_end")
+		}
 		dist := gcSegDistLL(pl, po, lat, lon, lat2, lon2, radius)
 		if kind == "dtl" {
 			return "dtl " + hexFloats(radius, pl, po, lat, lon, lat2, lon2, dist)
